@@ -106,4 +106,144 @@ example : run 0x4A 0x27 none
      [{ id := 0x0CA14A27, data := [0x2C, 0x01, 255, 255, 255, 255, 255, 255] }],
      [lockFrame 0x4A 0x27], [lockFrame 0x4A 0x27]] := by decide
 
+/-! ### the concurrent tasks
+
+The tick task and the command task run on different threads and share only the stored command (one mutex-protected
+slot; every accessor locks on its own).  A cycle is two steps — read the slot, later emit — and a command is two steps —
+write the slot, later emit.  Any interleaving of these steps is allowed.  (That a cycle reads the slot once and never
+writes it, and that a command writes it once, is what the access-trace hook checks on the real handlers.) -/
+
+inductive CEv where
+  /-- the tick task reads the stored command -/
+  | tickRead
+  /-- … and, any time later, sends what it read -/
+  | tickEmit
+  /-- the command task stores an accepted motion command -/
+  | cmdWrite (m : Motion)
+  deriving DecidableEq, Repr
+
+structure CSt where
+  slot : St := none
+  /-- what the tick task holds between its read and its emission -/
+  held : Option St := none
+  /-- everything the tick task has sent -/
+  sent : List (List Frame) := []
+
+def cstep (da sa : Nat) (s : CSt) : CEv → CSt
+  | .tickRead => { s with held := some s.slot }
+  | .tickEmit => match s.held with
+    | some v => { s with held := none, sent := s.sent ++ [encodeMotion da sa (v.getD .stopAll)] }
+    | none => s
+  | .cmdWrite m => { s with slot := some m }
+
+def crun (da sa : Nat) (s : CSt) (es : List CEv) : CSt := es.foldl (cstep da sa) s
+
+/-- the stored command is always the most recently written one, whatever the tick task is doing -/
+theorem C01_concurrent_slot (da sa : Nat) (s : CSt) (es : List CEv) :
+    (crun da sa s es).slot = ((es.reverse.findSome? fun | .cmdWrite m => some (some m) | _ => none).getD s.slot) := by
+  induction es generalizing s with
+  | nil => rfl
+  | cons e rest ih =>
+    have := ih (cstep da sa s e)
+    simp only [crun, List.foldl_cons] at this ⊢
+    rw [this, List.reverse_cons, List.findSome?_append]
+    cases hf : List.findSome? (fun x => match x with | CEv.cmdWrite m => some (some m) | _ => none) rest.reverse with
+    | some v => simp
+    | none => cases e <;> simp [cstep] <;> (try split) <;> rfl
+
+/-- C01 (concurrent cycles): a cycle whose read happens after stop-all was stored — and before any later command —
+sends the lock frame and nothing else, however its steps interleave with the command task -/
+theorem C01_concurrent_stop (da sa : Nat) (s : CSt) (mid : List CEv)
+    (hmid : ∀ e ∈ mid, e = .tickRead ∨ e = .tickEmit) (hheld : s.held = none) :
+    let s1 := crun da sa (cstep da sa s (.cmdWrite .stopAll)) mid
+    ∀ f ∈ (s1.sent.drop s.sent.length), f = encodeMotion da sa .stopAll := by
+  intro s1 f hf
+  -- invariant along `mid`: the slot holds stop-all, anything held is stop-all, everything sent since is the lock
+  have inv : ∀ (t : CSt) (l : List CEv), (∀ e ∈ l, e = .tickRead ∨ e = .tickEmit) →
+      t.slot = some .stopAll → (∀ v, t.held = some v → v = some .stopAll) →
+      (∀ g ∈ t.sent.drop s.sent.length, g = encodeMotion da sa .stopAll) → s.sent.length ≤ t.sent.length →
+      ∀ g ∈ (crun da sa t l).sent.drop s.sent.length, g = encodeMotion da sa .stopAll := by
+    intro t l
+    induction l generalizing t with
+    | nil => intro _ _ _ h _; exact h
+    | cons e rest ih =>
+      intro hl hs hh hsent hlen
+      have he := hl e (by simp)
+      have hrest : ∀ x ∈ rest, x = .tickRead ∨ x = .tickEmit := fun x hx => hl x (by simp [hx])
+      simp only [crun, List.foldl_cons]
+      rcases he with rfl | rfl
+      · exact ih _ hrest hs (by intro v hv; simp [cstep] at hv; rw [← hv, hs]) hsent hlen
+      · cases hheld' : t.held with
+        | none =>
+          have : cstep da sa t .tickEmit = t := by simp [cstep, hheld']
+          rw [this]; exact ih t hrest hs hh hsent hlen
+        | some v =>
+          have hv := hh v hheld'
+          have hstep : cstep da sa t .tickEmit = { t with held := none, sent := t.sent ++ [encodeMotion da sa .stopAll] } := by
+            simp [cstep, hheld', hv]
+          rw [hstep]
+          refine ih _ hrest hs (by intro w hw; simp at hw) ?_ (by simp; omega)
+          intro g hg
+          simp only at hg
+          rw [List.drop_append_of_le_length hlen] at hg
+          simp only [List.mem_append, List.mem_singleton] at hg
+          rcases hg with hg | hg
+          · exact hsent g hg
+          · exact hg
+  refine inv (cstep da sa s (.cmdWrite .stopAll)) mid hmid rfl ?_ ?_ (by simp [cstep]) f hf
+  · intro v hv; simp [cstep, hheld] at hv
+  · intro g hg; simp [cstep] at hg
+
+/-- C01 (concurrent cycles, one cycle under way): if a cycle had already read the old command when stop-all was
+stored, that one cycle may still send the old command — and every later emission is the lock frame -/
+theorem C01_concurrent_stop_inflight (da sa : Nat) (s : CSt) (mid : List CEv)
+    (hmid : ∀ e ∈ mid, e = .tickRead ∨ e = .tickEmit) :
+    let s1 := crun da sa (cstep da sa s (.cmdWrite .stopAll)) mid
+    ∀ f ∈ (s1.sent.drop (s.sent.length + 1)), f = encodeMotion da sa .stopAll := by
+  intro s1 f hf
+  have inv : ∀ (t : CSt) (l : List CEv), (∀ e ∈ l, e = .tickRead ∨ e = .tickEmit) →
+      t.slot = some .stopAll → (∀ v, t.held = some v → v = some .stopAll ∨ t.sent.length = s.sent.length) →
+      (∀ g ∈ t.sent.drop (s.sent.length + 1), g = encodeMotion da sa .stopAll) → s.sent.length ≤ t.sent.length →
+      ∀ g ∈ (crun da sa t l).sent.drop (s.sent.length + 1), g = encodeMotion da sa .stopAll := by
+    intro t l
+    induction l generalizing t with
+    | nil => intro _ _ _ h _; exact h
+    | cons e rest ih =>
+      intro hl hs hh hsent hlen
+      have he := hl e (by simp)
+      have hrest : ∀ x ∈ rest, x = .tickRead ∨ x = .tickEmit := fun x hx => hl x (by simp [hx])
+      simp only [crun, List.foldl_cons]
+      rcases he with rfl | rfl
+      · exact ih _ hrest hs (by intro v hv; simp [cstep] at hv; left; rw [← hv, hs]) hsent hlen
+      · cases hheld' : t.held with
+        | none =>
+          have : cstep da sa t .tickEmit = t := by simp [cstep, hheld']
+          rw [this]; exact ih t hrest hs hh hsent hlen
+        | some v =>
+          have hstep : cstep da sa t .tickEmit = { t with held := none, sent := t.sent ++ [encodeMotion da sa (v.getD .stopAll)] } := by
+            simp [cstep, hheld']
+          rw [hstep]
+          refine ih _ hrest hs (by intro w hw; simp at hw) ?_ (by simp; omega)
+          intro g hg
+          simp only at hg
+          rcases hh v hheld' with hv | hv
+          · by_cases hle : s.sent.length + 1 ≤ t.sent.length
+            · rw [List.drop_append_of_le_length hle] at hg
+              simp only [List.mem_append, List.mem_singleton] at hg
+              rcases hg with hg | hg
+              · exact hsent g hg
+              · rw [hg, hv]; rfl
+            · have : t.sent.length = s.sent.length := by omega
+              have hd : (t.sent ++ [encodeMotion da sa (v.getD .stopAll)]).drop (s.sent.length + 1) = [] := by
+                apply List.drop_eq_nil_of_le; simp; omega
+              rw [hd] at hg; simp at hg
+          · have hd : (t.sent ++ [encodeMotion da sa (v.getD .stopAll)]).drop (s.sent.length + 1) = [] := by
+              apply List.drop_eq_nil_of_le; simp; omega
+            rw [hd] at hg; simp at hg
+  refine inv (cstep da sa s (.cmdWrite .stopAll)) mid hmid rfl ?_ ?_ (by simp [cstep]) f hf
+  · intro v _; right; simp [cstep]
+  · intro g hg
+    have : (cstep da sa s (.cmdWrite .stopAll)).sent = s.sent := by simp [cstep]
+    rw [this, List.drop_eq_nil_of_le (by omega)] at hg; simp at hg
+
 end Glonax.Thm.C01
